@@ -249,20 +249,24 @@ impl Broker {
 
     fn connack_packet(&self, sp: bool, reason: u8) -> Packet {
         // A conformant broker never exceeds the client's Maximum Packet Size: optional properties
-        // are dropped first, then the per-connection ones; the broker's limits (identical on every
-        // connection of a case) go last, so that they are either always or never announced.
+        // are dropped first, then the per-connection ones. Maximum Packet Size / Maximum QoS are
+        // the same on every connection of a case, so whether they are announced is decided by a
+        // rule that does not depend on this connection's Receive Maximum (which may differ from
+        // CONNACK to CONNACK): they go out iff they fit on their own; Receive Maximum is dropped
+        // before them.
         let p = &self.plan.props;
-        let mut limits = Vec::new();
+        let mut rm = Vec::new();
+        let mut stable = Vec::new();
         let mut per_conn = Vec::new();
         if reason == 0 {
             if let Some(v) = p.receive_max {
-                limits.push(Prop::ReceiveMaximum(v));
+                rm.push(Prop::ReceiveMaximum(v));
             }
             if let Some(v) = p.max_packet {
-                limits.push(Prop::MaximumPacketSize(v));
+                stable.push(Prop::MaximumPacketSize(v));
             }
             if let Some(v) = p.max_qos {
-                limits.push(Prop::MaximumQoS(v));
+                stable.push(Prop::MaximumQoS(v));
             }
             if let Some(v) = p.server_keepalive {
                 per_conn.push(Prop::ServerKeepAlive(v));
@@ -271,17 +275,21 @@ impl Broker {
                 per_conn.push(Prop::AssignedClientId(v.clone()));
             }
         }
+        let fits = |props: &Vec<Prop>| rc::encode(&Packet::ConnAck { session_present: sp, reason, props: props.clone() }).len() as u64 <= self.client_max_packet as u64;
+        if !fits(&stable) {
+            stable.clear();
+        }
         let extra: Vec<Prop> = if reason == 0 { p.extra.clone() } else { vec![] };
         let candidates: Vec<Vec<Prop>> = vec![
-            [limits.clone(), per_conn.clone(), extra].concat(),
-            [limits.clone(), per_conn].concat(),
-            limits,
+            [rm.clone(), stable.clone(), per_conn.clone(), extra].concat(),
+            [rm.clone(), stable.clone(), per_conn].concat(),
+            [rm, stable.clone()].concat(),
+            stable,
             vec![],
         ];
         for props in candidates {
-            let pk = Packet::ConnAck { session_present: sp, reason, props };
-            if rc::encode(&pk).len() as u64 <= self.client_max_packet as u64 {
-                return pk;
+            if fits(&props) {
+                return Packet::ConnAck { session_present: sp, reason, props };
             }
         }
         Packet::ConnAck { session_present: sp, reason, props: vec![] }
